@@ -30,7 +30,7 @@ import inspect
 from typing import Any
 
 
-def make_provider(name, subdeps, *, is_async, extra_default=None, fail=False, record=None, msg_leaf=False, suspend=0.0):
+def make_provider(name, subdeps, *, is_async, extra_default=None, fail=False, record=None, msg_leaf=False, suspend=0.0, dep_defaults=False):
     """Provider returning the token (name, sorted(resolved sub-dependency values)).
     subdeps: list of (param_name, Depends object)."""
     def compute(kw):
@@ -57,9 +57,12 @@ def make_provider(name, subdeps, *, is_async, extra_default=None, fail=False, re
         def prov(**kw):
             return compute(kw)
 
-    params = [inspect.Parameter(p, inspect.Parameter.KEYWORD_ONLY, annotation=Annotated[Any, d]) for p, d in subdeps]
+    # dep_defaults: the dependency parameters also carry a default (the idiom that keeps a provider callable on its own in
+    # unit tests: `conn: Annotated[Conn, Depends(get_conn)] = None`); the injected value wins over the default
+    dflt = (lambda v: {"default": v}) if dep_defaults else (lambda v: {})
+    params = [inspect.Parameter(p, inspect.Parameter.KEYWORD_ONLY, annotation=Annotated[Any, d], **dflt("own-default-not-injected")) for p, d in subdeps]
     if msg_leaf:
-        params.append(inspect.Parameter("m", inspect.Parameter.KEYWORD_ONLY, annotation=MessageDependency))
+        params.append(inspect.Parameter("m", inspect.Parameter.KEYWORD_ONLY, annotation=MessageDependency, **dflt(None)))
     if extra_default is not None:
         params.append(inspect.Parameter("plain", inspect.Parameter.KEYWORD_ONLY, default=extra_default, annotation=int))
     prov.__signature__ = inspect.Signature(params)
@@ -334,3 +337,19 @@ def register_excvalue_actors(router, seen):
 
     router.actor(name="takes_error")(takes_error)
     router.actor(name="takes_parent")(takes_parent)
+
+
+# ---------------------------------------- C11: an actor that enqueues a follow-up job for another topic of the same queue
+def register_chain_actor(router, name, queue, log, tag, follow_name, conn):
+    from repid import Job
+
+    async def body(script: dict, m: MessageDependency):
+        log.add(k="actor_start", id=m.key.id_, attempt=m.parameters.retries.already_tried, actor=name, queue=m.key.queue, topic=m.key.topic, reg=tag)
+        # first thing it does: hand the next step of the pipeline to the other topic's worker
+        await Job(follow_name, id_=f"{m.key.id_}-f", queue=queue, args={"script": {"do": "ok", "d": 0.0}}, store_result=False, use_args_bucketer=False, _connection=conn).enqueue()
+        log.add(k="actor_end", id=m.key.id_, attempt=m.parameters.retries.already_tried, actor=name)
+        return None
+
+    body.__name__ = name
+    router.actor(name=name, queue=queue)(body)
+    return body
